@@ -38,8 +38,8 @@ def strategy(tier):
     cfg = gen.cfg_st(rr=st.sampled_from(['1.09', '1.10', '1.12']))
     profs = [gen.mixed(True, cfg), gen.growshrink(cfg, True), gen.growshrink(cfg, False), gen.deep(gen.cfg_st(rr=st.sampled_from(['1.09', '1.10', '1.12']), level=st.sampled_from([1, 2, 3, 3])), True),
              gen.deep(gen.cfg_st(rr=st.sampled_from(['1.09', '1.10', '1.12']), level=st.sampled_from([1, 2, 3])), False), gen.links(cfg, True),
-             gen.cegap(cfg, True), gen.cegap(cfg, False), gen.symsplit(cfg, True), gen.reloctwins(None, True), gen.readd(cfg, True), gen.symcomps(cfg, True), gen.symcomps(cfg, False)]
-    names = ['mixed', 'growshrink', 'growshrink', 'deep', 'deep', 'links', 'cegap', 'cegap', 'symsplit', 'reloctwins', 'readd', 'symcomps', 'symcomps']
+             gen.cegap(cfg, True), gen.cegap(cfg, False), gen.symsplit(cfg, True), gen.reloctwins(None, True), gen.readd(cfg, True), gen.symcomps(cfg, True), gen.symcomps(cfg, False), gen.rrfull(None, True), gen.rrfull(None, False)]
+    names = ['mixed', 'growshrink', 'growshrink', 'deep', 'deep', 'links', 'cegap', 'cegap', 'symsplit', 'reloctwins', 'readd', 'symcomps', 'symcomps', 'rrfull', 'rrfull']
     return st.tuples(st.one_of(*[p.map(lambda x, n=n: dict(x, profile=n)) for p, n in zip(profs, names)]), st.none())
 
 
